@@ -30,6 +30,9 @@ def pl(body, p, term_of=None):
 def local_name(body, l, term_of=None):
     loc = body["locals"][l]
     if loc.get("name"):
+        # parameters are named by position (renaming one must not invalidate a reviewed exception); `self` keeps its name
+        if 1 <= l <= int(body.get("arg_count") or 0) and loc["name"] != "self":
+            return "arg%d" % l
         return loc["name"]
     if term_of is not None:
         return term_of(l)
@@ -134,6 +137,9 @@ class Mir:
         return k
 
     def switch_cond(self, bi):
+        return self.canon_switch(bi)[0]
+
+    def raw_switch_cond(self, bi):
         t = self.blocks[bi]["t"]
         o = t["op"]
         p = o.get("copy") or o.get("move")
@@ -142,6 +148,23 @@ class Mir:
         if p["p"] or self.b["locals"][p["l"]].get("name"):
             return self.place(p)
         return self.term(p["l"])
+
+    def canon_switch(self, bi):
+        """(condition text, {raw edge value: canonical edge label}): `x == 3` tested as a bool and `match x { 3 => .. }` give the same
+        condition `x` with edges `3` / `otherwise`; `o.as_mut()` / `o.as_ref()` under a discriminant are `o`."""
+        import re
+        c = self.raw_switch_cond(bi)
+        c = re.sub(r"Option::as_(?:mut|ref|deref|deref_mut)\(&(?:mut )?([^()]*(?:\([^()]*\))?[^()]*)\)", r"\1", c)
+        t = self.blocks[bi]["t"]
+        m = re.match(r"^(Eq|Ne)\((.*), (-?\d+)\)$", c)
+        if m and set(t["vals"]) <= {0}:
+            # bool switch: vals [0] -> false edge, otherwise -> true edge
+            eq = m.group(1) == "Eq"
+            return m.group(2), {0: ("otherwise" if eq else m.group(3)), "otherwise": (m.group(3) if eq else "otherwise")}
+        return c, {}
+
+    def canon_edge(self, bi, val):
+        return self.canon_switch(bi)[1].get(val, val)
 
     # -- product exploration -----------------------------------------------------------
     def step_flags(self, bi, flags):
@@ -248,7 +271,7 @@ class Mir:
                 o = t["op"]
                 p = o.get("copy") or o.get("move")
                 if not (p is not None and not p["p"] and p["l"] in self.flags):
-                    conds.append("%s -> %s" % (self.switch_cond(bi), label[2]))
+                    conds.append("%s -> %s" % (self.switch_cond(bi), self.canon_edge(bi, label[2])))
             cur = prev
         conds.reverse()
         return conds[-limit:]
@@ -349,11 +372,12 @@ def analyse(body, markers, exception_edges, displaced_ok=True):
                 # (iv) exception edges by condition term
                 cond = m.switch_cond(b2)
                 for (eplace, econd, eedge), reason in exception_edges.items():
-                    if econd == cond and eplace == desc:
+                    # a place is named by its text (parameters by position) or, for let-bound locals, by its type: `<Vec<IppValue>>`
+                    if econd == cond and eplace in (desc, "<%s>" % t["pty"]):
                         for val in list(tt["vals"]) + ["otherwise"]:
-                            if str(val) == str(eedge):
+                            if str(m.canon_edge(b2, val)) == str(eedge):
                                 cut.add((b2, val))
-                                used.append("exception: %s -> %s" % (econd, eedge))
+                                used.append("exception: %s|%s -> %s" % (eplace, econd, eedge))
         parent_cut = m.explore(cut_edges=frozenset(cut), cut_blocks=frozenset(cut_blocks))
         still = [st for st in lossy if st in parent_cut]
         if not still:
